@@ -18,7 +18,9 @@ def _c(category, text, note, technique=_TECH):
 CHECKS = {
     "C01": _c(
         "other",
-        "Contracts: the 'which index survives' rule (legs_union, compute_contracted_info) is proved for all leg maps; the value property "
+        "Contracts proved for all inputs: the 'which index survives' rule (legs_union, get_legs, get_involved, compute_contracted_info), the per-node recipes "
+        "(get_einsum_eq is a faithful renaming of the index strings for any number of indices; get_tensordot_axes pairs exactly the shared positions; get_tensordot_perm "
+        "ranks the declared indices by tensordot-output position). The value property "
         "tree.contract == einsum with the declared axis order is checked bounded-symbolically: the real contract code runs on polynomial-valued "
         "arrays (equality for ALL array entries at a shape) over complete small network scopes x ALL binary trees x execution options. "
         "Right level because array/string code (numpy, index strings) is outside any SMT encoding available here.",
@@ -34,7 +36,8 @@ CHECKS = {
     "C03": _c(
         "other",
         "Proved for all inputs: the totals loops (contract_stats, total_flops, total_write, max_size, peak_size) compute exactly the sum / multiset / running peak "
-        "over the traversed nodes times the multiplicity, MaxCounter keeps its multiset invariant, the leg rule. Bounded: every figure against an independent evaluator "
+        "over the traversed nodes times the multiplicity, MaxCounter keeps its multiset invariant, the leg rule (get_legs/get_involved) and the per-node figures "
+        "(get_size/get_flops = product of sizes over legs / involved). Bounded: every figure against an independent evaluator "
         "and against the shapes actually produced while contracting, over complete small scopes x all trees x sliced subsets x orders.",
         "get_flops/get_size/traverse abstracted as pure functions inside the totals loops.",
     ),
@@ -60,15 +63,18 @@ CHECKS = {
     ),
     "C07": _c(
         "other",
-        "Proved: MaxCounter invariant; copy completeness of ContractionCosts. Bounded: whenever SliceFinder.search returns, predicted size/flops/nslices equal those of the tree "
+        "Proved for all inputs: ContractionCosts.__init__ establishes and ContractionCosts.remove preserves the cost-model invariant (per-contraction flops/size are the "
+        "products over the reduced index sets, tracked flops = their sum, tracked sizes = their multiset, where-map exact); MaxCounter invariant; copy completeness. "
+        "Bounded: whenever SliceFinder.search returns, predicted size/flops/nslices equal those of the tree "
         "actually sliced, targets honoured, forbidden indices never chosen; ContractionCosts.remove == ContractionTree.remove_ind figures for every index and ordered pair.",
         "Searches that raise are outside the property and counted separately.",
     ),
     "C08": _c(
         "other",
-        "Bounded: real HyperOptimizer runs with a harness pool whose futures complete in every permutation (<= 5 trials) and sampled orders beyond; best == argmin over trials, "
-        "trial count <= max_repeats, recorded figures == returned tree (rebuilt), failing trials skipped. No clause of this property is currently proved (hyper.py is orchestration "
-        "around generators/closures outside the prover's subset).",
+        "Proved for all inputs and all completion orders: HyperOptimizer._search leaves `best` an arg-min over the previous best and every consumed trial (any trial generator); "
+        "_get_and_report_next_future returns, reports once and removes exactly one finished future; _maybe_report_result appends one aligned record; ComputeScore gives a failing "
+        "trial an infinite score and no tree. Bounded: real HyperOptimizer runs with a harness pool whose futures complete in every permutation (<= 5 trials) and sampled orders "
+        "beyond; best == argmin over trials, trial count <= max_repeats, recorded figures == returned tree (rebuilt).",
         "Schedule quantifier met for the harness pool only; real thread/process pools run once each.",
     ),
     "C09": _c(
@@ -86,8 +92,8 @@ CHECKS = {
     ),
     "C11": _c(
         "other",
-        "Bounded-symbolic: cotengra.contract.einsum/tensordot on polynomial-valued arrays equal the dense reference for all equations over small alphabets x shapes from {1,2,3}; "
-        "purity of the lru_cache'd plan parsers is a proved syntactic clause (C13).",
+        "Bounded-symbolic: cotengra.contract.einsum/tensordot on polynomial-valued arrays equal the dense reference for all equations over small alphabets x shapes from {1,2,3}. "
+        "Proved: the recipes that feed them from a tree (get_einsum_eq, get_tensordot_axes, get_tensordot_perm); purity of the lru_cache'd plan parsers (syntactic clause).",
         "String/array plan code is outside the SMT encoding.",
     ),
     "C12": _c(
@@ -97,7 +103,8 @@ CHECKS = {
     ),
     "C13": _c(
         "other",
-        "Proved (syntactic frame clauses on the AST): the cache key contains every component under injective constructors and is not reduced through hash(); cached and uncached "
+        "Proved: hash_contraction returns a tuple whose components are the terms, the output, the (label, size) pairs in order, the optimize argument and the options themselves "
+        "(so the key is injective by construction). Proved (syntactic frame clauses on the AST): the key contains every component under injective constructors and is not reduced through hash(); cached and uncached "
         "branches call the builder with identical arguments; every lru_cache'd parser reads only its arguments. Bounded: differential cached-vs-cold over all call sequences (length <= 3/4) "
         "from pools differing in one key component.",
         "Dynamic attribute access is not followed by the syntactic analysis.",
@@ -105,13 +112,15 @@ CHECKS = {
     "C14": _c(
         "other",
         "Proved for all cache states: the lookup/run/overwrite policy of _maybe_run_optimizer (cache_only never searches; hit returns the stored record; 'improved' never worsens; "
-        "'searched' only if this search's tree is the answer; no other entry touched). Bounded: query sequences over pools of near-identical contractions, both fingerprints, disk reload in fresh processes.",
+        "'searched' only if this search's tree is the answer; no other entry touched); DiskDict read-your-write, reader returns the memory value or the complete stored value, "
+        "presence == memory or file. Bounded: query sequences over pools of near-identical contractions, both fingerprints, disk reload in fresh processes.",
         "hash_query/_run_optimizer by assumed contracts; sha1 o pickle assumed injective on values.",
     ),
     "C15": _c(
         "other",
         "Proved over an assumed file-system model: after EVERY effect of DiskDict.__setitem__ (and for every number of bytes on disk during the write) each entry name is absent or a "
-        "complete pickle, the new entry is complete at the end, other entries untouched. Bounded: the real writer is killed at every byte offset and syscall boundary in child processes and fresh readers must recover.",
+        "complete pickle, the new entry is complete at the end, other entries untouched; a reader over a recoverable directory never sees a partial entry (returns the value or KeyError). "
+        "The same clauses run natively on real directories. Bounded: the real writer is killed at every byte offset and syscall boundary in child processes and fresh readers must recover.",
         "POSIX rename atomicity; temporary names are never entry names; prefix of a pickle does not unpickle.",
     ),
     "C16": _c(
@@ -130,7 +139,7 @@ CHECKS = {
         "other",
         "Proved for all leg maps: legs_union and compute_contracted_info equal the common step spec (kept = combined count below the global count; cost = product over the union; "
         "size = product over kept). Bounded: the four simulators replay the same path step by step; reported flops/scores equal the rebuilt tree's.",
-        "Processor and hypergraph rules only bounded so far.",
+        "Tree rule (get_legs/get_involved) and processor rule (compute_contracted) are proved against the same step spec; the hypergraph rule is bounded only.",
     ),
     "C19": _c(
         "other",
@@ -150,5 +159,6 @@ NOT_APPLICABLE = {}
 NOTES = (
     "Every check: bin/check <id> --tier quick|thorough; exit 0 held, 1 VIOLATION (replay file), 2 undecided only, 3 checker crash. "
     "T1 = proved obligations (reported under coverage.obligations/discharged with backend and solver time); bounded tiers are labelled bounded. "
-    "known_findings.json lists 30+ genuine defects of the pinned tree, all repaired by 'fix:' commits in /repo (nothing is suppressed)."
+    "known_findings.json lists the 37 genuine defects of the pinned tree, all repaired by 'fix:' commits in /repo (nothing is suppressed). "
+    "seeded/<id>/ holds 20 independently written property-breaking patches; bin/eval_seeded <id> applies one to /repo, runs the check and undoes it (all 20 are caught)."
 )
